@@ -35,23 +35,38 @@ def main():
     fmt = job["fmt"]
     try:
       if fmt in ("weights_h5", "weights_v3", "weights_tf"):
+        xs0 = np.load(job["x"])
+        x0 = [tf.constant(xs0["arr_%d" % i]) for i in range(len(xs0.files))]
         if job.get("rebuild"):
           # The user's own model-building code runs again in the new process.
           from simlat.worlds import builders
           # A new process starts from its own global RNG state.
           keras.utils.set_random_seed(int(job.get("rng_seed", 1)))
-          model = builders.BUILDERS[job["spec"]["builder"]].build(job["spec"])
+          b = builders.BUILDERS[job["spec"]["builder"]]
+          if (fmt == "weights_tf" and
+              getattr(b, "can_defer", lambda sp: False)(job["spec"])):
+            model = b.build(job["spec"], defer=True)
+            model.load_weights(job["path"])
+            model(b.to_model_inputs_spec(tf, x0, job["spec"]))
+          else:
+            model = b.build(job["spec"])
+            model.load_weights(job["path"])
         else:
           model = keras.models.model_from_json(job["json"], custom_objects=co)
-        model.load_weights(job["path"])
+          model.load_weights(job["path"])
       else:
         model = keras.models.load_model(job["path"], custom_objects=co)
       xs = np.load(job["x"])
       x = [xs["arr_%d" % i] for i in range(len(xs.files))]
       xin = [tf.constant(c) for c in x]
+      from simlat.worlds import builders as _b
       if job.get("ragged"):
-        from simlat.worlds import builders as _b
         xin = _b.ragged_inputs(tf, xin)
+      else:
+        bb = _b.BUILDERS.get((job.get("spec") or {}).get("builder"))
+        conv = getattr(bb, "to_model_inputs_spec", None)
+        if conv is not None:
+          xin = conv(tf, xin, job["spec"])
       y = model(xin).numpy()
       cfg = modelworld.json_norm(model.get_config())
       meta = []
